@@ -156,6 +156,17 @@ func applyMutant(eng *Engine, prop, pf string, known map[string]KnownFinding) mu
 		if len(errs) > 0 {
 			mr.Failed = append(mr.Failed, "engine: "+firstLine(errs[0]))
 		}
+		props := []string{prop}
+		if prop == "all" {
+			props = []string{"C09"}
+		}
+		for _, p := range props {
+			for _, b := range boundedStandins[p] {
+				if br := runBounded(verifRoot, scratch, "quick", b); !br.Passed {
+					mr.Failed = append(mr.Failed, "bounded stand-in "+b.Test+": "+firstLine(lineWith(br.Output, "VERIF-BOUNDED")))
+				}
+			}
+		}
 		mr.Detected = len(mr.Failed) > 0
 	}()
 	mr.Seconds = time.Since(start).Seconds()
@@ -351,6 +362,24 @@ func runCheck(eng *Engine, prop, tier, verif string, loadS float64, start time.T
 		}
 	}
 
+	// bounded stand-ins (both tiers; the bound depends on the tier)
+	var bounded []boundedResult
+	for _, b := range boundedStandins[prop] {
+		r := runBounded(verif, eng.repo, tier, b)
+		bounded = append(bounded, r)
+		if !r.Passed {
+			rp := filepath.Join(verif, "replays", sanitize(prop+"__bounded__"+b.Test)+".json")
+			rep := map[string]interface{}{"property": prop, "kind": "bounded stand-in: failing input found on the real code", "standin": r,
+				"rerun": fmt.Sprintf("cd %s && VERIF_TIER=%s go test -overlay <(echo '{\"Replace\":{\"%s/zz_verif_bounded_test.go\":\"%s\"}}') -vet=off -count=1 -run '^%s$' -v .", eng.repo, tier, eng.repo, filepath.Join(verif, b.File), b.Test)}
+			bj, _ := json.MarshalIndent(rep, "", " ")
+			os.WriteFile(rp, append(bj, '\n'), 0o644)
+			fmt.Printf("VIOLATION property=%s replay=%s\n", prop, rp)
+			fmt.Printf("  bounded stand-in %s failed: %s\n", b.Test, firstLine(lineWith(r.Output, "VERIF-BOUNDED")))
+			seenV["bounded "+b.Test] = true
+			exit = 1
+		}
+	}
+
 	// evidence
 	abstr := map[string]bool{}
 	assumed := map[string]bool{}
@@ -443,7 +472,7 @@ func runCheck(eng *Engine, prop, tier, verif string, loadS float64, start time.T
 			"bit_rewrite_rules_used":   bvRules,
 			"known_finding_obligations": knownL,
 			"engine_errors":            engineErrs,
-			"bounded_standins":         []string{},
+			"bounded_standins":         bounded,
 			"must_fail_corpus":         mutants,
 			"witness_runs":             witnessRuns,
 		},
@@ -576,4 +605,86 @@ func (e *Engine) deadByContract(r *Result) bool {
 		}
 	}
 	return false
+}
+
+// Bounded stand-ins: exhaustive small-scope checks of REAL functions that no
+// contract reaches (trusted or uncontracted).  They are labelled bounded in
+// the evidence and never counted as proved; a failure is a failing input
+// replayed on the real code.
+var verifRoot = "/verif"
+
+type boundedStandin struct {
+	File, Test, Covers, Bound string
+}
+
+var boundedStandins = map[string][]boundedStandin{}
+
+func init() {
+	it := boundedStandin{
+		File:   "bounded/iter_merge_bounded_test.go",
+		Test:   "TestVerifBoundedIterMerge",
+		Covers: "heap iterator (segmentStack.startIterator/StartIterator, iterator.Next/SeekTo/Current/CurrentEx, optimize) and segmentStack.mergeInto (trusted contract), against a reference fold",
+		Bound:  "keys {\"\",a,b}; per key absent|Set|Del|Merge; quick: all stacks of <= 2 levels (lowest optionally the lower-level snapshot) + 1500 seeded random 3-level stacks; thorough: all stacks of <= 3 levels (~516000); string-append merge operator; all ranges over {nil,\"\",a,b,c}; SeekTo from fresh and exhausted iterators; mergeInto of every upper range, with/without base, both tail modes",
+	}
+	for _, p := range []string{"C01", "C08", "C09", "C10"} {
+		boundedStandins[p] = append(boundedStandins[p], it)
+	}
+}
+
+type boundedResult struct {
+	Name    string  `json:"name"`
+	Covers  string  `json:"functions_covered"`
+	Bound   string  `json:"bound"`
+	Level   string  `json:"level"`
+	Passed  bool    `json:"passed"`
+	Stats   string  `json:"stats"`
+	Seconds float64 `json:"seconds"`
+	Output  string  `json:"output,omitempty"`
+}
+
+func runBounded(verif, repo, tier string, b boundedStandin) boundedResult {
+	res := boundedResult{Name: b.File + ":" + b.Test, Covers: b.Covers, Bound: b.Bound, Level: "bounded (not a proof; not counted in obligations/discharged)"}
+	start := time.Now()
+	tmp, err := os.MkdirTemp("", "govc-bounded-")
+	if err != nil {
+		res.Output = err.Error()
+		return res
+	}
+	defer os.RemoveAll(tmp)
+	ov := map[string]map[string]string{"Replace": {filepath.Join(repo, "zz_verif_bounded_test.go"): filepath.Join(verif, b.File)}}
+	bb, _ := json.Marshal(ov)
+	ovPath := filepath.Join(tmp, "ov.json")
+	os.WriteFile(ovPath, bb, 0o644)
+	timeout := "300s"
+	if tier == "thorough" {
+		timeout = "3600s"
+	}
+	cmd := exec.Command("go", "test", "-overlay", ovPath, "-vet=off", "-count=1", "-timeout", timeout, "-run", "^"+b.Test+"$", "-v", ".")
+	cmd.Dir = repo
+	cmd.Env = append(os.Environ(), "GOFLAGS=-mod=mod", "GOPROXY=off", "GOSUMDB=off", "GOTOOLCHAIN=local", "VERIF_TIER="+tier)
+	out, err := cmd.CombinedOutput()
+	res.Seconds = time.Since(start).Seconds()
+	o := string(out)
+	for _, ln := range strings.Split(o, "\n") {
+		if i := strings.Index(ln, "VERIF-BOUNDED-STATS"); i >= 0 {
+			res.Stats += strings.TrimSpace(ln[i+len("VERIF-BOUNDED-STATS"):]) + " "
+		}
+	}
+	res.Passed = err == nil && strings.Contains(o, "--- PASS")
+	if !res.Passed {
+		if len(o) > 6000 {
+			o = o[:6000]
+		}
+		res.Output = o
+	}
+	return res
+}
+
+func lineWith(s, sub string) string {
+	for _, ln := range strings.Split(s, "\n") {
+		if strings.Contains(ln, sub) {
+			return strings.TrimSpace(ln)
+		}
+	}
+	return firstLine(s)
 }
